@@ -156,6 +156,69 @@ CLAIMS = {
         "technique": "TLA+ per-row sampling specification; recorded sampler runs (kernels + frames) validated by TLC",
         "design_ref": "6/C07",
     },
+    "C06": {
+        "text": ("Parameter learning is specified in TLA+ (spec/LearnLib.tla) on a bag of weighted rows in exact rationals: counts, MLE (uniform for "
+                 "unseen parent configurations), (N+alpha)/(sum N + sum alpha) with K2 / BDeu / explicit-Dirichlet pseudo counts, incremental update = "
+                 "Bayesian fit with previous CPD x previous sample size, and one exact EM iteration. TLC enumerates every DAG over <=3 columns (all "
+                 "543 on 4 in thorough) x small data sets (declared-but-unobserved states, unseen configurations, integer/fractional/zero weights) x "
+                 "all estimators, proves oracle lemmas (columns sum to one, closed forms, row-order and weight-expansion invariance, pooled-MLE law "
+                 "of updates) and emits the expected CPD of every node by named assignment; each case is replayed on fit / DAG.fit / get_parameters / "
+                 "estimate_cpd / fit_update / EM-without-latents under permuted rows, columns, parent orders, dtypes, weights, n_jobs, non-sorted "
+                 "state names and hash seeds (check_model required); recorded fits on random data are validated cell by cell by TLC (Trace_C06); "
+                 "EM with latents: first iteration = TLC's exact E+M step, composition of iterations, likelihood sequences monotone."),
+        "note": "EM log-likelihoods are computed by the harness (brute force over the latent); EM beyond the first iteration only by composition/monotonicity; string column names; small-scope exhaustive, larger data sampled.",
+        "technique": "TLA+ exact-rational learning spec; TLC-enumerated cases replayed on the code; TLC trace validation",
+        "design_ref": "6/C06",
+    },
+    "C09": {
+        "text": ("spec/IOLib.tla models each file format as an abstract document (declared variables, state lists, parent lists, table cells as opaque "
+                 "value tokens in the order the format prescribes) with Write(fmt, model) and Read(fmt, doc); TLC proves Read(Write(m')) ~ Canon(m) for "
+                 "every declared evidence order of every instance and format (BIF row-order freedom, NET four-decimal units from exact decimal "
+                 "digits). Every real pgmpy round trip (writer/reader classes, str/string, save/load, n_jobs 1/2; hash seeds; identifier names incl. "
+                 "format keywords; random insertion orders) is validated by TLC (Trace_C09) in both directions: tokenised text = Write(fmt, m'), read "
+                 "model = Read(fmt, observed text), read model ~ m by named assignment; BIF/XMLBIF/UAI bit-exact on 17-digit floats, 1e-12..1, "
+                 "exact 0/1, a 1008-cell table, cards 1-12, 0-5 parents, isolated nodes, Markov networks for UAI."),
+        "note": "Assumes the C05 layout rule and Python string order for names; NET values not within 1e-9 of a rounding tie; known finding: NETReader with a variable named 'node'.",
+        "technique": "TLA+ abstract document model of the formats; lexed real files validated by TLC in both directions",
+        "design_ref": "6/C09",
+    },
+    "C10": {
+        "text": ("K2/BDeu/BDs/BIC/AIC local scores are specified in TLA+ (spec/ScoreSpec.tla, LogForm.tla) by their published closed forms over all parent "
+                 "configurations and all declared states as exact symbolic normal forms (integer combinations of log p and log pi; Gamma at integers and "
+                 "half-integers via Legendre). TLC checks the symbolic arithmetic (Gamma recurrence, duplication formula) and on every generated data set "
+                 "that unobserved configurations are neutral, K2 = BDeu with unit pseudo counts, BDs = BDeu on fully observed data, row-order invariance, "
+                 "and that all Markov-equivalent DAG pairs on <=4 columns have identical BDeu/BIC/AIC network forms. The tables are replayed on pgmpy: "
+                 "local_score equals the form wherever the closed form exists; parent-order, row/column/state-order/dtype permutation, ScoreCache "
+                 "hit/miss/eviction, score = sum local + prior, structure_prior, structure_score, equal scores on every equivalent DAG pair for all ess."),
+        "note": "math.log evaluates the forms (validated against math.lgamma on TLC's table); closed form only where ess/(q*r) is an integer or half-integer (relations elsewhere); known finding: BDs with unobserved parent configurations.",
+        "technique": "TLA+ symbolic normal forms of the scores; TLC-generated tables replayed on the code",
+        "design_ref": "6/C10",
+    },
+    "C17": {
+        "text": ("spec/Gen_C17.tla unrolls a 2-TBN template into an ordinary Bayesian network over nodes <<var, t>> inside TLA+ (a BNLib instance) and "
+                 "computes filtered (evidence up to the queried slice) and smoothed (all evidence) marginals by brute force on its joint; TLC enumerates "
+                 "(template, query node in slices 0..MaxT, evidence set in any slices). Each case is replayed on DBNInference.forward_inference "
+                 "(filter), backward_inference and query (smoothing), incl. two-variable queries; get_constant_bn must expose the template's CPDs "
+                 "unchanged and initialize_initial_state must copy CPDs to the other slice unaltered (compared by named parent assignment)."),
+        "note": ("Regular templates (inter-slice edges are persistence edges of an interface set, every variable has an intra-slice edge) plus one irregular "
+                 "witness; range(card) state names; quick replays a seeded sample of TLC's cases. Known findings (modelled by features): smoothing with "
+                 "interface evidence before the last slice, multi-slice queries in one call, irregular templates."),
+        "technique": "TLA+ unrolling of the template + brute-force marginals; TLC-enumerated cases replayed on the code",
+        "design_ref": "6/C17",
+    },
+    "C19": {
+        "text": ("spec/CITest.tla specifies the stratified contingency-table test (strata, tables over present values, dof, Yates correction at dof 1, "
+                 "Cressie-Read statistic for every rational lambda as an exact symbolic normal form, p-value kind, verdict rule); spec/PCorr.tla "
+                 "partial correlation by least squares with intercept in exact integers. TLC proves on every generated case: symmetry in X and Y, "
+                 "invariance to row and Z order, zero statistic with p = 1 on exactly independent/degenerate tables, equality with Pearson's X^2 at "
+                 "lambda = 1, infinity exactly for lambda <= -1 on empty cells, normal equations, affine invariance of r. TLC enumerates every data "
+                 "bag of small table families, every (X, Y, ordered Z) on seeded data, every affine map on tiny integer data; each case is replayed "
+                 "on pgmpy with the boolean rule, two-run relations and an exact verdict-boundary check; calls recorded from random frames and from "
+                 "PC.estimate are validated event by event by Trace_C19."),
+        "note": "chi-square and Student-t survival functions are uninterpreted (scipy evaluates them on the spec's statistic and dof) except p = 1 / p = 0 cases fixed by the spec; forms evaluated in doubles at 1e-9; known finding: NaN for empty cells with lambda < 0, lambda != -1 (scipy).",
+        "technique": "TLA+ symbolic specification of the tests; TLC-enumerated cases replayed on the code; TLC trace validation",
+        "design_ref": "6/C19",
+    },
 }
 
 NOT_APPLICABLE = {}
